@@ -2,9 +2,13 @@
    Proved: the codec's integer layer (big-endian u32 round trip), the name cut (never beyond the
    documented limit, never longer than the name, identity on names that fit, and the limit fits
    the one-byte length field), and that the writer's header is one the reader accepts.
-   The whole-ontology round trip `decode (encode o) = Ok o'` with `o'` observationally equal to `o`
-   is decided by the correspondence run and spec_C07; it is not yet a theorem. *)
-From HpoV Require Import Gen.Consts Model.Base Model.Group Model.Onto Model.Binary Proofs.GroupP Proofs.BinaryP Proofs.CodecP.
+   Section level and whole file: what as_bytes writes is read back by from_bytes as the Builder
+   pipeline run on the raw facts the file carries (C07_decode_encode_is_rebuild) — the file layer
+   is transparent, for any number of terms and records.  That the rebuilt ontology is
+   observationally equal to the one written (same closure, same propagated annotations, same IC) is
+   composed from the C01 / C02 / C03 / C16 theorems informally and decided per case by the
+   correspondence run and spec_C07; that last composition is not yet one theorem. *)
+From HpoV Require Import Gen.Consts Model.Base Model.Group Model.Onto Model.Binary Proofs.GroupP Proofs.BinaryP Proofs.CodecP Proofs.SectionP.
 
 Theorem C07_u32_roundtrip : forall n rest, n < 4294967296 -> u32_at (to_be32 n ++ rest) 0 = Ok n.
 Proof. exact u32_at_to_be32. Qed.
@@ -50,6 +54,31 @@ Proof. exact cut_name_valid. Qed.
 Theorem C07_short_name_not_cut : forall limit name, Nlen name <= limit -> cut_name limit name = name.
 Proof. exact cut_name_fits. Qed.
 
+(* ---- section level: any number of records ---- *)
+
+Theorem C07_term_section : forall v ts, v <> V1 -> Forall term_rec_ok ts ->
+  forall fuel a, (length ts < fuel)%nat ->
+  read_terms fuel v (concat (map enc_term ts)) a = foldM (fun a t => ar_insert (raw_term t) a) ts a.
+Proof. exact read_terms_section. Qed.
+
+Theorem C07_parent_section : forall ts, Forall parent_rec_ok ts ->
+  forall fuel (pre : bytes) a, (length ts < fuel)%nat ->
+  read_parents fuel (pre ++ concat (map enc_parents ts)) (Nlen pre) a
+  = foldM (fun a t => foldM (fun a p => b_add_parent_unchecked p (t_id t) a) (t_parents t) a) ts a.
+Proof. exact read_parents_section. Qed.
+
+Theorem C07_record_section : forall k rs, Forall (record_ok k) rs ->
+  forall fuel (pre : bytes) o, (length rs < fuel)%nat ->
+  read_records fuel k (pre ++ concat (map (enc_record k) rs)) (Nlen pre) o
+  = foldM (load_record k) (map (raw_record k) rs) o.
+Proof. exact read_records_section. Qed.
+
+(* ---- the whole file: from_bytes (as_bytes o) = the Builder pipeline on o's raw facts, whatever
+   order the HashMaps emit the records in ---- *)
+Theorem C07_decode_encode_is_rebuild : forall icf order o, file_ok order o ->
+  decode icf (encode_with order o) = rebuild icf order o.
+Proof. exact decode_encode_is_rebuild. Qed.
+
 Print Assumptions C07_u32_roundtrip.
 Print Assumptions C07_name_cut_bounds.
 Print Assumptions C07_name_cut_identity.
@@ -60,3 +89,7 @@ Print Assumptions C07_gene_record_roundtrip.
 Print Assumptions C07_disease_record_roundtrip.
 Print Assumptions C07_cut_name_stays_valid.
 Print Assumptions C07_short_name_not_cut.
+Print Assumptions C07_term_section.
+Print Assumptions C07_parent_section.
+Print Assumptions C07_record_section.
+Print Assumptions C07_decode_encode_is_rebuild.
